@@ -50,6 +50,12 @@ Qed.
 Lemma nth_error_set_nth_other {A} i j (x : A) l : i <> j -> nth_error (set_nth i x l) j = nth_error l j.
 Proof. intro N. rewrite nth_error_set_nth. apply Nat.eqb_neq in N. rewrite N. reflexivity. Qed.
 
+Lemma nth_set_node_other i j s' net : j <> i -> nth_error (nodes (set_node i s' net)) j = nth_error (nodes net) j.
+Proof. intro N. unfold set_node. cbn [nodes]. apply nth_error_set_nth_other. auto. Qed.
+
+Lemma nth_set_node_same i s' net : (i < length (nodes net))%nat -> nth_error (nodes (set_node i s' net)) i = Some s'.
+Proof. intro L. unfold set_node. cbn [nodes]. apply nth_error_set_nth_same. auto. Qed.
+
 Section NetProof.
   Variable n : nat.
   Variable byz : nat -> bool.
@@ -436,17 +442,18 @@ Section NetProof.
         exists T. split.
         - eapply NetInv_idle; eauto; intro; congruence.
         - intros j sj Lj Bj Hj. assert (j <> i) by congruence.
-          cbn in Hj. rewrite nth_error_set_nth_other in Hj; auto. }
+          rewrite nth_set_node_other in Hj; auto. }
       pose proof (ni_nodes NI Li Bi Hs) as OK. pose proof (NodeOK_P OK) as P0.
       unfold node_step. cbn [fst snd].
       destruct (ev_plain ev) eqn:Pl.
       + destruct (status_ s) eqn:R.
         * (* a running engine takes a step *)
           assert (P' := P_step_ev blocks Li Bi (env_ok i NI) d ev P0 Pl (legal_ev_k0 _ _ Lg)).
+          remember (step_ev n (Z.of_nat i) blocks d ev None s) as s' eqn:Es. clear Es.
           destruct (NetInv_node_step NI Li Bi Hs P') as [T' [NI' Fr]].
           exists T'. split; auto. intros j sj Lj Bj Hj. destruct (Nat.eq_dec j i) as [->|Ne].
           -- right. destruct (FO' i s Li Bi Hs) as [[E0 _]|H0]; auto. subst s. discriminate R.
-          -- cbn in Hj. rewrite nth_error_set_nth_other in Hj; auto.
+          -- rewrite nth_set_node_other in Hj; auto.
              destruct (FO' j sj Lj Bj Hj) as [[E0 L0]|H0]; auto. left. split; auto. rewrite Fr; auto.
         * (* stopped *)
           rewrite step_ev_idle; auto; [|congruence].
@@ -454,17 +461,17 @@ Section NetProof.
           exists T. split.
           -- eapply NetInv_idle; eauto. intros _ v. cbn. tauto.
           -- intros j sj Lj Bj Hj. destruct (Nat.eq_dec j i) as [->|Ne].
-             ++ cbn in Hj. rewrite nth_error_set_nth_same in Hj; auto. inversion Hj; subst sj.
+             ++ rewrite nth_set_node_same in Hj; auto. inversion Hj; subst sj.
                 destruct (FO' i s Li Bi Hs) as [[E0 L0]|H0]; auto. left. subst s. split; auto.
-             ++ cbn in Hj. rewrite nth_error_set_nth_other in Hj; auto.
+             ++ rewrite nth_set_node_other in Hj; auto.
         * rewrite step_ev_idle; auto; [|congruence].
           destruct (@idle_ok i s (no_inv OK) (no_invd OK) (sm_fuse (no_sim OK))) as [I1 [I2 I3]].
           exists T. split.
           -- eapply NetInv_idle; eauto. intros _ v. cbn. tauto.
           -- intros j sj Lj Bj Hj. destruct (Nat.eq_dec j i) as [->|Ne].
-             ++ cbn in Hj. rewrite nth_error_set_nth_same in Hj; auto. inversion Hj; subst sj.
+             ++ rewrite nth_set_node_same in Hj; auto. inversion Hj; subst sj.
                 destruct (FO' i s Li Bi Hs) as [[E0 L0]|H0]; auto. subst s. discriminate R.
-             ++ cbn in Hj. rewrite nth_error_set_nth_other in Hj; auto.
+             ++ rewrite nth_set_node_other in Hj; auto.
       + destruct ev; try discriminate Pl; [discriminate Cr|].
         (* the start of the engine *)
         cbn [ev_restart_of app] in FO, ND.
@@ -472,11 +479,12 @@ Section NetProof.
         rewrite step_ev_restart; [|reflexivity].
         change (set_outs [] None init) with init. cbv zeta.
         assert (P' := P_restart_init blocks Li Bi (env_ok i NI) d (no_sim OK) L0).
+        remember (restart n (Z.of_nat i) blocks d init) as s' eqn:Es. clear Es.
         unfold blown. rewrite (P_fuse P').
         destruct (NetInv_node_step NI Li Bi Hs P') as [T' [NI' Fr]].
         exists T'. split; auto. intros j sj Lj Bj Hj. destruct (Nat.eq_dec j i) as [->|Ne].
         * right. apply ND. left; auto.
-        * cbn in Hj. rewrite nth_error_set_nth_other in Hj; auto.
+        * rewrite nth_set_node_other in Hj; auto.
           destruct (FO j sj Lj Bj Hj) as [[E1 L1]|H1].
           -- left. split; auto. rewrite Fr; auto.
           -- right. intro K. apply H1. right; auto.
@@ -507,7 +515,7 @@ Section NetProof.
         assert (existsb (Nat.eqb i) (flat_map ev_restart_of evs) = true); [|congruence].
         apply existsb_exists. exists i. split; auto. apply Nat.eqb_refl. }
       destruct ND' as [ND1 ND2].
-      destruct (net_step_nocrash (e:=e) NI FO Fz1 Cr1 ND1) as [T' [NI' FO']].
+      destruct (@net_step_nocrash net T e _ NI FO Fz1 Cr1 ND1) as [T' [NI' FO']].
       apply (IH _ T'); auto.
   Qed.
 
@@ -528,8 +536,8 @@ Section NetProof.
     intros NI Hb i j v w [Li Bi] [Lj Bj] Di Dj. unfold decided_of in *.
     destruct (nth_error (nodes net) i) as [si|] eqn:Hi; [|discriminate].
     destruct (nth_error (nodes net) j) as [sj|] eqn:Hj; [|discriminate].
-    pose proof (sm_dec (no_sim (ni_nodes NI Li Bi Hi)) _ Di) as Ti.
-    pose proof (sm_dec (no_sim (ni_nodes NI Lj Bj Hj)) _ Dj) as Tj.
+    pose proof (sm_dec (no_sim (ni_nodes NI Li Bi Hi)) Di) as Ti.
+    pose proof (sm_dec (no_sim (ni_nodes NI Lj Bj Hj)) Dj) as Tj.
     exact (TP.tm_agreement n byz Hb T i j v w (ni_reach NI) (correct_i n byz i Li Bi) (correct_i n byz j Lj Bj) Ti Tj).
   Qed.
 
@@ -541,14 +549,14 @@ Section NetProof.
     intros NI Hb i b [Li Bi] Di. unfold decided_of in *.
     destruct (nth_error (nodes net) i) as [si|] eqn:Hi; [|discriminate].
     pose proof (no_sim (ni_nodes NI Li Bi Hi)) as HS.
-    pose proof (sm_dec HS _ Di) as Ti.
+    pose proof (sm_dec HS Di) as Ti.
     destruct (TP.tm_decide_needs_quorum n byz Hb T i b (ni_reach NI) Ti) as [r Q].
     exists (Z.of_N r). split; [lia|].
     unfold TM.qprecommit, TM.quorum in Q.
     change (TM.over23 (TM.countn (fun k => has_vote_of (soup net) k (Z.of_N r) Precommit (Some b)) n) n = true).
     eapply TP.over23_mono; [|exact Q]. apply TP.countn_mono. intros k Lk Hk.
     apply TP.has_vote_In in Hk. apply (sm_soup HS) in Hk as [v [K C]].
-    apply (known_env v (ni_byz NI) Bi Hi) in K. destruct (soup_wf NI K) as [W1 W2].
+    apply (known_env v (ni_byz NI) Bi Hi) in K. destruct (soup_wf v NI K) as [W1 W2].
     unfold has_vote_of. apply existsb_exists. exists v. split; auto.
     unfold conv in C. inversion C. 
     rewrite !andb_true_iff. repeat split.
@@ -563,12 +571,68 @@ Section NetProof.
     forall i j v w, correct n byz i -> correct n byz j ->
       decided_of (run_net n byz blocks evs) i = Some v ->
       decided_of (run_net n byz blocks evs) j = Some w -> v = w.
-  Proof. intros NC Hb. destruct (no_crash_inv NC) as [T NI]. exact (inv_agreement NI Hb). Qed.
+  Proof. intros NC Hb. destruct (@no_crash_inv evs NC) as [T NI]. exact (inv_agreement NI Hb). Qed.
 
   Theorem finalize_needs_quorum_no_crash evs :
     no_crash evs = true -> (3 * nbyz n byz < n)%nat ->
     forall i b, correct n byz i -> decided_of (run_net n byz blocks evs) i = Some b ->
       exists r, 0 <= r /\ over23 (count_precommits (soup (run_net n byz blocks evs)) n r b) n = true.
-  Proof. intros NC Hb. destruct (no_crash_inv NC) as [T NI]. exact (inv_finalize_needs_quorum NI Hb). Qed.
+  Proof. intros NC Hb. destruct (@no_crash_inv evs NC) as [T NI]. exact (inv_finalize_needs_quorum NI Hb). Qed.
 
 End NetProof.
+
+(* ================================================================== *)
+(* Non-vacuity: n = 4, slot 3 Byzantine and equivocating, one block.   *)
+
+Definition ex_blocks1 : list blk := [mkBlk 1 1 true 1 false].
+Definition ex_byz3 (k : nat) : bool := Nat.eqb k 3.
+Definition ex_pv (i r : Z) (d : option N) : vote := mkVote i r Prevote d 0.
+Definition ex_pc (i r : Z) (d : option N) : vote := mkVote i r Precommit d 0.
+
+(* engines 0,1,2 start; 1 is the proposer of round 0 and proposes block 1; 0 and
+   2 receive proposal and part and import the block; everybody prevotes block 1;
+   the Byzantine slot prevotes block 1 towards engine 0 and block 9 towards
+   engine 2 (equivocation); the prevotes and precommits travel; engines 0 and 1
+   finalize block 1, engine 2 is still waiting for a precommit *)
+Definition ex_hist : list nev :=
+  [ Restart 0; Restart 1; Restart 2;
+    Callback 1 (EProposeCb 0 true 1);
+    Deliver 0 (EProposal true 0 1 (-1) 1); Deliver 0 (EPart true 1 0); Callback 0 (EImportCb 0 true);
+    Deliver 2 (EProposal true 0 1 (-1) 1); Deliver 2 (EPart true 1 0); Callback 2 (EImportCb 0 true);
+    ByzSend (mkVote 3 0 Prevote (Some 1%N) 5); ByzSend (mkVote 3 0 Prevote (Some 9%N) 6);
+    DeliverVotes 0 [ex_pv 1 0 (Some 1%N); mkVote 3 0 Prevote (Some 1%N) 5];
+    DeliverVotes 1 [ex_pv 0 0 (Some 1%N); ex_pv 2 0 (Some 1%N)];
+    DeliverVotes 2 [mkVote 3 0 Prevote (Some 9%N) 6; ex_pv 0 0 (Some 1%N); ex_pv 1 0 (Some 1%N)];
+    DeliverVotes 0 [ex_pc 1 0 (Some 1%N); ex_pc 2 0 (Some 1%N)];
+    DeliverVotes 1 [ex_pc 0 0 (Some 1%N); ex_pc 2 0 (Some 1%N)] ].
+
+Example ex_hist_meets_hypotheses :
+  no_crash ex_hist = true /\ boundary_crashes ex_hist = true /\ (3 * nbyz 4 ex_byz3 < 4)%nat /\
+  correct 4 ex_byz3 0 /\ correct 4 ex_byz3 1.
+Proof. vm_compute. repeat split; auto; lia. Qed.
+
+Example ex_hist_decides :
+  let net := run_net 4 ex_byz3 ex_blocks1 ex_hist in
+  decided_of net 0 = Some 1%N /\ decided_of net 1 = Some 1%N /\ decided_of net 2 = None /\
+  over23 (count_precommits (soup ex_byz3 net) 4 0 1) 4 = true /\
+  vote_mem (mkVote 3 0 Prevote (Some 9%N) 6) (soup ex_byz3 net) = true /\
+  vote_mem (mkVote 3 0 Prevote (Some 1%N) 5) (soup ex_byz3 net) = true.
+Proof. vm_compute. repeat split; reflexivity. Qed.
+
+(* the legality filter: a prevote of the Byzantine slot that was never sent (and
+   a forged vote of a correct slot) is not delivered — the event is dropped and
+   engine 0 does not see a polka *)
+Definition ex_forged : list nev :=
+  firstn 10 ex_hist ++
+  [ DeliverVotes 0 [ex_pv 1 0 (Some 1%N); ex_pv 2 0 (Some 1%N); mkVote 3 0 Prevote (Some 1%N) 5] ].
+
+Example ex_forged_dropped :
+  run_net 4 ex_byz3 ex_blocks1 ex_forged = run_net 4 ex_byz3 ex_blocks1 (firstn 10 ex_hist) /\
+  option_map lock_of (node_of (run_net 4 ex_byz3 ex_blocks1 ex_forged) 0) = Some None /\
+  (* the same delivery after the Byzantine vote was published is accepted: engine 0 locks *)
+  option_map lock_of (node_of (run_net 4 ex_byz3 ex_blocks1
+     (firstn 11 ex_hist ++ [DeliverVotes 0 [ex_pv 1 0 (Some 1%N); ex_pv 2 0 (Some 1%N); mkVote 3 0 Prevote (Some 1%N) 5]])) 0)
+  = Some (Some (0, 1%N)) /\
+  (* a correct slot cannot be impersonated by ByzSend *)
+  run_net 4 ex_byz3 ex_blocks1 [ByzSend (ex_pv 1 0 None)] = net_init 4.
+Proof. vm_compute. repeat split; reflexivity. Qed.
